@@ -85,6 +85,21 @@ pub fn base_classes(sc: &Scenario, out: &Outcome) -> Vec<&'static str> {
     if sc.own_snapshots {
         c.push("game_keeps_own_snapshots");
     }
+    if sc.weak_checksum {
+        c.push("one_bit_checksums");
+    }
+    if sc.peers.iter().any(|p| p.no_checksum) {
+        c.push("a_game_without_checksums");
+    }
+    if sc.resubmit_varies {
+        c.push("stalled_frames_resubmitted_with_other_values");
+    }
+    if sc.double_submit {
+        c.push("inputs_registered_twice_per_tick");
+    }
+    if sc.fps != 60 {
+        c.push("fps!=60");
+    }
     if sc.max_pred == 1 {
         c.push("window1");
     }
